@@ -46,6 +46,17 @@ func (m *UnboundedMailbox) Resume() {
 	}
 }
 
+// Hold 在邮箱投入使用之前占住处理权：此后入队的消息只缓存，不会启动处理协程，直到 Release。
+// 用于新建的 Actor：保证先入队 OnLaunch，再开始处理期间到达的其他消息。
+func (m *UnboundedMailbox) Hold() {
+	atomic.StoreUint32(&m.status, processing)
+}
+
+// Release 放开 Hold 占住的处理权，并处理期间缓存的消息（系统消息优先）。
+func (m *UnboundedMailbox) Release() {
+	go m.process()
+}
+
 func (m *UnboundedMailbox) IsPaused() bool {
 	return atomic.LoadUint32(&m.paused) == 1
 }
